@@ -2,7 +2,7 @@
 import itertools
 import wire
 from wire import mk_fmt, cells
-from props.common import chunks_for, reply_fmt, guarded, PALETTE
+from props.common import chunks_for, reply_fmt, guarded, canon_cells, PALETTE
 
 PROP = "C09"
 MODULES = ["Curtsies.Properties.C09", "Curtsies.Properties.C09Setitem"]
@@ -20,7 +20,7 @@ ASSUMPTIONS = ["0 <= start <= end (the property's range); negative offsets and e
 LEVEL_NOTE = ("C09_splice/insert/append: full strength for FmtStr operands; for plain-str operands C09_*_operand_partial "
               "(hypothesis: no ESC '[' in the str) - the full statement C09_full_statement is refuted by C09_D27_witness "
               "(open finding D27). trusted: Lean kernel + propext/Classical.choice/Quot.sound, the hand-written models "
-              "(FmtStr core, escape parser, Operand), extract.py, the wire codec; CPython is modelled not verified")
+              "(FmtStr core, escape parser, Operand), extract.py, the wire codec; CPython is modelled not verified. Ties: property level = per-character cells of the result (C09/splice, in-statement cases); representation level = the exact runs and the out-of-statement setitem cases (C09/splice-runs). \"f itself is unchanged\" is judged on public views only (str, .s, repr, cells, len, width); run-object identity is a note.")
 
 NEWS = [
     ("s", ""),
@@ -165,10 +165,27 @@ def expected(c):
     return cs[:start] + nc + cs[end:]
 
 
+def width_view(x):
+    """the public `width` view: its value, or the kind of exception it raises (control characters)"""
+    try:
+        return ("width", x.width)
+    except Exception as e:  # noqa: BLE001
+        return ("width-raises", type(e).__name__)
+
+
 def snapshot(x):
+    """every public view of an operand (the verdict on "f itself is unchanged" uses these and nothing private)"""
     if isinstance(x, str):
         return x
-    return (str(x), x.s, repr(x), tuple(cells(x)), len(x), tuple(id(ch) for ch in x.chunks))
+    return (str(x), x.s, repr(x), tuple(cells(x)), len(x), width_view(x))
+
+
+def run_ids(x):
+    """identity of the operand's run objects: representation only (a refactor may rebuild equal runs) - noted, no verdict"""
+    return None if isinstance(x, str) else tuple(id(ch) for ch in x.chunks)
+
+
+RUN_OBJECTS_REPLACED = [0]
 
 
 def oracle(c, model_reply=None):
@@ -184,6 +201,7 @@ def oracle(c, model_reply=None):
             return None         # outside the oracle's statement (tie only): padding / rejection behaviour is C04's
     # touch the memoised views first so that a stale cache would be visible afterwards
     before_f, before_new = snapshot(f), snapshot(new)
+    ids_before = (run_ids(f), run_ids(new))
     try:
         r = call(c, f, new)
     except Exception as e:  # noqa: BLE001
@@ -191,6 +209,8 @@ def oracle(c, model_reply=None):
     try:    # observing the result must not raise either
         got, rs, rl = cells(r), r.s, len(r)
         after_f, after_new, chunks_f = snapshot(f), snapshot(new), wire.fmt_chunks(f)
+        if (run_ids(f), run_ids(new)) != ids_before:
+            RUN_OBJECTS_REPLACED[0] += 1
     except Exception as e:  # noqa: BLE001
         return ("%s: reading the result raised %s" % (c["op"], type(e).__name__), None)
     unchanged = after_f == before_f and chunks_f == [(s, dict(a)) for s, a in c["f"]] and after_new == before_new
@@ -199,11 +219,12 @@ def oracle(c, model_reply=None):
         if c["new"][0] == "s" and "\x1b[" in c["new"][1] and unchanged and model_reply is not None \
                 and model_reply.startswith("ok "):
             # D27 footprint: the only deviation is that the str operand was parsed (its escape sequences vanish / format
-            # its characters): the real result equals, run for run, what the Lean model (its own parser) returns for the
-            # same request, and .s / len() agree with that value; operands and their memoised views are unchanged
+            # its characters): the real result has, character for character, the cells the Lean model (its own parser)
+            # returns for the same request, and .s / len() agree with that value; operands and their views are unchanged
+            # (run boundaries are representation, not part of the footprint)
             try:
                 want = wire.cells_of_chunks(wire.dec_fmt(model_reply[3:]))
-                if reply_fmt(r) == model_reply and got == want and rs == "".join(ch for ch, _ in want) and rl == len(want):
+                if got == want and rs == "".join(ch for ch, _ in want) and rl == len(want):
                     fp = "D27"
             except Exception:  # noqa: BLE001
                 fp = None
@@ -214,7 +235,9 @@ def oracle(c, model_reply=None):
     if rl != len(exp):
         return ("%s: len() is %d, number of characters is %d" % (c["op"], rl, len(exp)), None)
     if after_f != before_f or chunks_f != [(s, dict(a)) for s, a in c["f"]]:
-        return ("%s: operand changed: f was %r, is %r" % (c["op"], before_f[:3], after_f[:3]), None)
+        views = ("str()", ".s", "repr()", "cells", "len()", ".width")
+        diff = [(views[i], before_f[i], after_f[i]) for i in range(len(views)) if before_f[i] != after_f[i]]
+        return ("%s: operand changed: views of f before/after %r (runs %r)" % (c["op"], diff[:3], chunks_f), None)
     if after_new != before_new:
         return ("%s: operand changed: new was %r, is %r" % (c["op"], before_new, after_new), None)
     return None
@@ -266,18 +289,37 @@ def judge(ctx, cases, impl_out=None, tagfn=None):
                   tag=(tag(c) + ("/esc-str" if c["new"][0] == "s" and "\x1b" in c["new"][1] else "")) if tagfn else "search")
         if w:
             fp = w[1]
-            if fp is not None and impl_out is not None and model[i] is not None and impl_out[i] != model[i]:
-                fp = None       # model and code disagree on this very case: judge it without the footprint
+            if fp is not None and impl_out is not None and model[i] is not None and canon_cells(impl_out[i]) != canon_cells(model[i]):
+                fp = None       # model and code disagree (on cells) on this very case: judge it without the footprint
             ctx.violation(w[0], c, fp)
             if not tagfn and len([v for v in ctx.violations if v["footprint"] is None]) > 50:
                 return
 
 
+def in_statement(c):
+    """setitem is an anchor, not part of the statement: only its replace case (0 <= start < len, one-character value) has a
+    property-level expectation; its padding / rejection behaviour (exception kinds) is compared at representation level"""
+    if c["op"] != "setitem":
+        return True
+    n = sum(len(s) for s, _ in c["f"])
+    nlen = len(c["new"][1]) if c["new"][0] == "s" else sum(len(s) for s, _ in c["new"][1])
+    return c["start"] < n and nlen == 1
+
+
 def check(ctx):
     cases = mk_cases(ctx)
-    # exact comparison: the model must produce the same runs (texts and attribute dicts), not only the same cells
-    impl_out = ctx.tie("C09/splice", cases, line, impl)
-    judge(ctx, cases, impl_out, tagfn=True)
+    # property level: the per-character cells of the result (what the statement speaks about)
+    inside = [c for c in cases if in_statement(c)]
+    out_in = ctx.tie("C09/splice", inside, line, impl, canon_cells, canon_cells)
+    # representation level: the same runs (texts and attribute dicts) as the model, and the out-of-statement setitem cases
+    ctx.tie("C09/splice-runs", cases, line, impl, level="representation")
+    judge(ctx, inside, out_in, tagfn=True)
+    rest = [c for c in cases if not in_statement(c)]
+    for c in rest:
+        ctx.count(c, nontrivial=True, tag="setitem-outside-statement")
+    if RUN_OBJECTS_REPLACED[0]:
+        ctx.note("representation: in %d calls the operands' run OBJECTS were replaced by equal ones (all public views unchanged)"
+                 % RUN_OBJECTS_REPLACED[0])
 
 
 def search(ctx):
